@@ -161,7 +161,7 @@ func scaleTemplates() []scaleTemplate {
 			return []*Node{Assign("=", Name("l"), List(es...)), Assign("=", Name("d"), DictE(kv...)),
 				ExprS(Probe(0, Tuple(Call(Name("len"), Name("l")), Call(Name("len"), Name("d")), Index(Name("l"), Num(int64(n-1))), Index(Name("d"), Num(int64(n-1))))))}
 		}},
-		{"positional-arguments", 255, func(n int) []*Node {
+		{"positional-arguments", 257, func(n int) []*Node {
 			var as []*Node
 			for i := 0; i < n; i++ {
 				a := Num(int64(i) + 1)
@@ -173,7 +173,7 @@ func scaleTemplates() []scaleTemplate {
 			body := []*Node{Return(Tuple(Call(Name("len"), Name("a")), Index(Name("a"), Num(0)), Index(Name("a"), Num(int64(n-1)))))}
 			return []*Node{Def("f", []*Param{PStar("a")}, body), ExprS(Probe(0, Call(Name("f"), as...)))}
 		}},
-		{"keyword-arguments", 255, func(n int) []*Node {
+		{"keyword-arguments", 257, func(n int) []*Node {
 			c := Call(Name("f"))
 			for i := 0; i < n; i++ {
 				a := Num(int64(i) + 1)
